@@ -340,9 +340,9 @@ def ensure_model(pid):
     ext_mli = os.path.join(COQ, "Extract", "m_%s.mli" % lp)
     common = os.path.join(VERIF, "ocaml", "common.ml")
     drv = os.path.join(VERIF, "ocaml", "drv_%s.ml" % lp)
-    stubs = os.path.join(VERIF, "ocaml", "stubs.c")
+    stubs = os.path.join(VERIF, "ocaml", "zvstubs.c")
     stubs_ml = os.path.join(VERIF, "ocaml", "stubs.ml")
-    srcs = [ext_ml, ext_mli, common, drv, stubs, stubs_ml]
+    srcs = [ext_ml, ext_mli, common, os.path.join(VERIF, "ocaml", "common_z.ml"), drv, stubs, stubs_ml]
     h = hashlib.sha256()
     for s in srcs:
         if os.path.exists(s):
@@ -361,10 +361,12 @@ def ensure_model(pid):
         if use_stubs:
             shutil.copy(stubs, d)
             shutil.copy(stubs_ml, d)
-            order += ["stubs.c", "stubs.ml"]
+            order += ["zvstubs.c", "stubs.ml"]
         with open(os.path.join(d, "drv.ml"), "w") as f:
             f.write("module BZ = Z\nopen M_%s\n" % lp)
             f.write(open(common).read())
+            if re.search(r"^type z =", open(ext_ml).read(), flags=re.M):
+                f.write(open(os.path.join(VERIF, "ocaml", "common_z.ml")).read())
             f.write(open(drv).read())
         order.append("drv.ml")
         cmd = ["ocamlfind", "ocamlopt", "-inline", "50", "-package", "zarith,unix", "-linkpkg", "-w", "-a"] + order
